@@ -119,6 +119,11 @@ def require_ok(r, what):
 
 # ---------------------------------------------------------------------------------------
 # parser for TLA+ values as TLC prints them (records, sequences/tuples, sets, strings, ints, booleans, functions)
+_ID = re.compile(r"[A-Za-z_][A-Za-z0-9_]*")
+_INT = re.compile(r"-?\d+")
+_BOOL = re.compile(r"TRUE\b|FALSE\b")
+
+
 class _P:
     def __init__(self, s, i=0):
         self.s, self.i = s, i
@@ -164,7 +169,7 @@ class _P:
             rec = {}
             while not self.peek("]"):
                 self.ws()
-                m = re.match(r"[A-Za-z_][A-Za-z0-9_]*", s[self.i:])
+                m = _ID.match(s, self.i)
                 key = m.group(0)
                 self.i += len(key)
                 self.eat("|->")
@@ -195,15 +200,15 @@ class _P:
                 j += 1
             self.i = j + 1
             return "".join(buf)
-        m = re.match(r"-?\d+", s[self.i:])
+        m = _INT.match(s, self.i)
         if m:
             self.i += len(m.group(0))
             return int(m.group(0))
-        m = re.match(r"TRUE|FALSE", s[self.i:])
+        m = _BOOL.match(s, self.i)
         if m:
             self.i += len(m.group(0))
             return m.group(0) == "TRUE"
-        m = re.match(r"[A-Za-z_][A-Za-z0-9_]*", s[self.i:])
+        m = _ID.match(s, self.i)
         if m:
             self.i += len(m.group(0))
             return {"__id__": m.group(0)}
@@ -217,15 +222,18 @@ def parse_tla(text):
 def printed_tuples(out, tag):
     """All values PrintT'ed as <<"tag", ...>> in TLC output (robust to line wrapping and worker interleaving)."""
     res = []
-    pat = '<<"%s"' % tag
-    i = out.find(pat)
-    while i >= 0:
-        p = _P(out, i)
+    pat = re.compile(r'<<\s*"%s"' % re.escape(tag))
+    pos = 0
+    while True:
+        m = pat.search(out, pos)
+        if not m:
+            break
+        p = _P(out, m.start())
         try:
             res.append(p.value())
-            i = out.find(pat, p.i)
+            pos = p.i
         except Exception:
-            i = out.find(pat, i + 2)
+            pos = m.start() + 2
     return res
 
 
